@@ -168,7 +168,12 @@ def execute(spec, ctx):
         shutil.copyfile(path, odd)
         a = _load(ctx, "real path %s with filetype='cml'" % os.path.basename(odd), lambda: Atoms.load(odd, filetype="cml"))
         _check(ctx, a, spec, "real path %s with filetype='cml'" % os.path.basename(odd))
-        ctx.count("path_loads", 3)
+        # ... and a dot inside the file name does not hide the extension
+        dotted = os.path.join(d, ("doc.v2.cml", "my.linker.rev3.cml")[spec["seed"] % 2])
+        shutil.copyfile(path, dotted)
+        a = _load(ctx, "real path %s" % os.path.basename(dotted), lambda: Atoms.load(dotted))
+        _check(ctx, a, spec, "real path %s" % os.path.basename(dotted))
+        ctx.count("path_loads", 4)
         with open(path) as f:
             a = _load(ctx, "real open file", lambda: Atoms.load(f, filetype="cml"))
         _check(ctx, a, spec, "real open file")
